@@ -407,11 +407,11 @@ H("C14", "debugger::command::parse::verif_h::c10_count_clamp", PARSEF, covers=2,
   what="step into count: default 1, 0 -> 1", bounds="one decimal digit")
 for nm, q in [("len1", True), ("len2", True), ("len3", False), ("multibyte", True)]:
     H("C14", f"debugger::command::reader::stdin::verif_h::c14_transport_{nm}", STDINF, tier=("quick" if q else "thorough"), covers=1, timeout=3000, mem_gb=24,
-      allow_unsat=["at least two commands"] if nm == "len1" else [],
+      allow_unsat=[],
       stubs=["Stdin::read_byte -> next byte of the harness's byte queue (the OS read is the only thing replaced)"],
       functions=["Argument::read", "Stdin::read", "Stdin::read_char", "read_char_from_bytes", "Utf8Position::from"],
       what=f"same script ({nm}) via --command and via stdin: same command strings, same end",
-      bounds="scripts of exactly 1/2/3 bytes over {a, space, ';', newline}; e-acute next to one symbolic ASCII byte")
+      bounds="scripts of exactly 1/2/3 bytes over {a, space, ';', newline} (last byte symbolic, the others enumerated); e-acute next to one symbolic ASCII byte")
 
 # ------------------------------------------------------------------ C20
 TERMF = "src/debugger/command/reader/terminal.rs"
@@ -425,14 +425,17 @@ prop(
     ["char::is_whitespace / is_alphanumeric replaced by their exact answers on the 5-character alphabet"],
 )
 CH_STUB = "char::is_whitespace / char::is_alphanumeric -> exact answers on the alphabet"
-for n in (0, 1, 2, 3):
-    H("C20", f"debugger::command::reader::terminal::verif_h::c20_motion_len{n}", TERMF, tier=("quick" if n <= 2 else "thorough"), covers=2, timeout=3000, mem_gb=30,
+for nm, q in [("len0", True), ("len1", True), ("len2_a", False), ("len2_space", True), ("len2_plus", False), ("len2_e_acute", True), ("len2_emoji", False),
+              ("len3_space", False), ("len3_a", False)]:
+    H("C20", f"debugger::command::reader::terminal::verif_h::c20_motion_{nm}", TERMF, tier=("quick" if q else "thorough"), covers=2, timeout=3000, mem_gb=30,
       stubs=[CH_STUB], functions=["find_word_next", "find_word_back", "count_chars_bytes"],
-      what=f"word motions + index conversion on all {5**n} strings of {n} characters x every cursor (enumerated) x both word modes (symbolic)", bounds=f"{n} characters")
-for n in (0, 1, 2):
-    H("C20", f"debugger::command::reader::terminal::verif_h::c20_edit_len{n}", TERMF, tier=("quick" if n <= 1 else "thorough"), covers=2, timeout=3000, mem_gb=30,
+      what=f"word motions + index conversion on the strings '{nm}' (length / first character; the rest enumerated over the 5-character alphabet) x every cursor x both word modes (symbolic)",
+      bounds="<= 3 characters")
+for nm, q in [("len0_a", True), ("len1_a", True), ("len1_e_acute", False), ("len1_emoji", True), ("len2_emoji", False)]:
+    H("C20", f"debugger::command::reader::terminal::verif_h::c20_edit_{nm}", TERMF, tier=("quick" if q else "thorough"), covers=2, timeout=3000, mem_gb=30,
       functions=["insert_char_index", "remove_char_index", "count_chars_bytes"],
-      what=f"insert/remove at a character index on all {5**n} strings of {n} characters x every cursor (enumerated) x every inserted character (symbolic)", bounds=f"{n} characters")
+      what=f"insert/remove of the character in '{nm}' at a character index: (string, cursor) state picked by the solver among all strings of that length x every cursor",
+      bounds="<= 2 characters")
 # (get_next_command's `find(';')` goes through core's memchr: 1.7 M symex steps for a 2-byte line, out of memory -- not registered)
 
 # ------------------------------------------------------------------ C15
@@ -494,8 +497,9 @@ for arm in ("hex_arm_2", "hex_arm_3", "zero_arm_2", "zero_arm_3", "dec_arm_2", "
       functions=["Cursor::advance_token", "Cursor::hex", "Cursor::dec", "Cursor::str", "Cursor::dir", "Cursor::ident", "Cursor::take_while", "Cursor::get_range", "error::lex_*"],
       what=f"lexer arm {arm}: the arm's first character + every valid-UTF-8 continuation making a text of exactly that many bytes: no panic, spans inside the source",
       bounds="text of exactly 2 / 3 bytes; first token")
-H("C05", "lexer::verif_h::c05_lex_multibyte_first", LEX, covers=1, stubs=[FMT, KW], timeout=2400, functions=["Cursor::advance_token", "error::lex_unknown"],
-  what="2-byte / 4-byte first character, optionally followed by any ASCII byte: diagnostic, spans inside the source", bounds="<= 5 bytes")
+for nm, q in [("2", True), ("2_tail", False), ("4", False), ("4_tail", True)]:
+    H("C05", f"lexer::verif_h::c05_lex_multibyte_{nm}", LEX, tier=("quick" if q else "thorough"), covers=1, stubs=[FMT, KW], timeout=2400,
+      functions=["Cursor::advance_token", "error::lex_unknown"], what=f"first character of {nm} bytes (tail = one symbolic ASCII byte): diagnostic, spans inside the source", bounds="<= 5 bytes")
 H("C05", "lexer::verif_h::c05_display_all_kinds", LEX, covers=2, functions=["<TokenKind as Display>::fmt"],
   what="Display for every token kind a preprocessed stream can contain (incl. Byte, Breakpoint)", bounds="complete")
 for nm, q in [("add_3", True), ("add_1", False), ("ldr_3", False), ("not_2", True), ("not_0", False), ("br_1", True), ("ld_2", False), ("jsr_1", False),
@@ -544,13 +548,15 @@ for nm, q in [("hex", True), ("hex_neg", False), ("dec", False), ("dec_neg", Tru
         H(pp, f"lexer::verif_h::c01_literal_{nm}", LEX, tier=("quick" if q and pp == "C01" else "thorough"), covers=2, stubs=[FMT, KW], timeout=2400, mem_gb=20,
           functions=["Cursor::advance_token", "Cursor::hex", "Cursor::dec"],
           what=f"literal spelling '{nm}' with 1..3 symbolic digits: token value == numeric value (two's complement), token spans the literal", bounds="<= 3 digits")
-SPAN_STUBS = PE_STUBS + ["AsmParser::parse_instr -> the NOT / RET arm (two registers through the real expect_reg / nothing)"]
-for nm, props in [("c17_span_not", ["C17"]), ("c17_span_break_not", ["C17", "C11"]), ("c17_span_ret", ["C17"])]:
+SPAN_STUBS = PE_STUBS + ["AsmParser::parse_instr -> its contract towards parse(): 'operands consumed up to byte E' / 'no operand'"]
+for nm, props in [("c17_span_statement", ["C17"]), ("c17_span_break_statement", ["C17", "C11"])]:
     for pp in props:
-        H(pp, f"parser::verif_h::{nm}", PAR, covers=1, stubs=SPAN_STUBS, timeout=2400, mem_gb=24,
-          functions=["AsmParser::parse", "AsmParser::expect_reg", "AsmParser::expect_where", "Air::add_stmt", "Breakpoints::insert"],
-          what="statement span = mnemonic .. last consumed operand for arbitrary increasing token spans; .break marks the next statement's index, no word, predefined",
-          bounds="one statement")
+        H(pp, f"parser::verif_h::{nm}", PAR, covers=2, stubs=SPAN_STUBS, timeout=2400, mem_gb=24,
+          functions=["AsmParser::parse", "Air::add_stmt", "Breakpoints::insert"],
+          what="statement span = first token .. end of last consumed operand (or the first token alone), for arbitrary offsets, also right after an operand-ful "
+               "statement; .break marks the next statement's index, no word, predefined", bounds="one statement; offsets < 2000")
+H("C17", "parser::verif_h::c17_tok_end_recorded", PAR, covers=2, stubs=PE_STUBS, timeout=1500, functions=["AsmParser::expect", "AsmParser::expect_where", "AsmParser::expect_reg"],
+  what="expect / expect_reg record the end of the consumed operand", bounds="one token")
 for n in (0, 1, 3):
     H("C17", f"debugger::asm::verif_h::c17_source_lookup_{n}", ASMF, tier=("quick" if n == 1 else "thorough"), covers=2, timeout=2400, mem_gb=20,
       allow_unsat=["idx < 0"] if False else [],
@@ -586,7 +592,10 @@ H("C17", "debugger::asm::verif_h::c17_show_single_line_multibyte", ASMF, covers=
 for w in ("push", "pop", "call", "rets"):
     H("C18", f"lexer::verif_h::c18_gate_case_{w}", LEX, tier=("quick" if w in ("push", "rets") else "thorough"), covers=2, stubs=[FMT], timeout=3000, mem_gb=24,
       functions=["Cursor::advance_token", "Cursor::ident", "Cursor::check_instruction", "features::stack"],
-      what=f"'{w}' in every letter case (symbolic case mask) as source text: accepted iff the flag is on", bounds="one token")
+      what=f"'{w}' / upper case / capitalised as source text: accepted iff the flag is on (flag symbolic)", bounds="one token; 3 letter-case variants")
+    H("C18", f"lexer::verif_h::c18_gate_case_{w}_all", LEX, tier="thorough", covers=2, stubs=[FMT], timeout=5400, mem_gb=30,
+      functions=["Cursor::advance_token", "Cursor::ident", "Cursor::check_instruction", "features::stack"],
+      what=f"'{w}' in every letter case (all 2^n variants enumerated) as source text: accepted iff the flag is on", bounds="one token")
 H("C18", "runtime::verif_h::c03_load_place_3000_2", RT, covers=2, stubs=[EXIT], functions=["RunEnvironment::from_raw"], timeout=1500,
   what="loading with the feature cell uninitialised: the initial machine (R7 = 0xFDFF ...) does not consult the flag", bounds="origin 0x3000, 2 words")
 H("C19", "symbol::verif_h::c19_sequence_after_reset", SYMF, covers=2, stubs=[FMT, SYM], functions=["reset_state", "Label::insert", "Label::filled", "Label::try_fill"],
